@@ -355,7 +355,11 @@ pub fn model_civil(model: &Zone, sec: i64, ns: u32) -> (cal::Civ, i32) {
 }
 
 pub fn civ_of(dt: jiff::civil::DateTime) -> cal::Civ {
-    let day = cal::days_from_civil(dt.year() as i64, dt.month() as i64, dt.day() as i64);
+    // invalid field combinations map to a sentinel (see gen::day_of_date)
+    let day = crate::gen::day_of_date(dt.date());
+    if day < cal::MIN_DAY - 10 || crate::gen::nod_of_time(dt.time()) < 0 {
+        return cal::Civ { day: i64::MIN / 4, nod: 0 };
+    }
     let nod = ((dt.hour() as i64 * 60 + dt.minute() as i64) * 60 + dt.second() as i64) * 1_000_000_000 + dt.subsec_nanosecond() as i64;
     cal::Civ { day, nod }
 }
